@@ -1,5 +1,6 @@
 #![allow(unused, non_snake_case)]
 use vstd::prelude::*;
+use std::ops::Add;
 macro_rules! debug { ($($t:tt)*) => { () } }
 macro_rules! trace { ($($t:tt)*) => { () } }
 verus! {
